@@ -66,7 +66,7 @@ def specConv {w : Nat} (fromSigned : Bool) (a : BitVec w) (v : Nat) : BitVec v :
   if fromSigned then a.signExtend v else a.setWidth v
 
 /-- the Go value denoted by a bit vector of a signed / unsigned type -/
-def repr {w : Nat} (signed : Bool) (a : BitVec w) : Int :=
+def valOf {w : Nat} (signed : Bool) (a : BitVec w) : Int :=
   if signed then a.toInt else (a.toNat : Int)
 
 end GV.Spec.Num
